@@ -438,7 +438,22 @@ func runC09(c *mon.Ctx) {
 			l := int(pl[firstSec+1]&0xf)<<8 | int(pl[firstSec+2])
 			e := firstSec + 3 + l
 			if e <= len(pl) && l >= 4 {
-				copy(pl[e-4:e], gen.Bytes(r, 4))
+				// random bytes, and the values a damaged or never computed checksum typically has: all zeros, all ones, the
+				// complement of the right one, the right one with its bytes reversed
+				c0, c1, c2, c3 := pl[e-4], pl[e-3], pl[e-2], pl[e-1]
+				switch r.IntN(6) {
+				case 0:
+					copy(pl[e-4:e], []byte{0, 0, 0, 0})
+					cls = "crc-zeroed"
+				case 1:
+					copy(pl[e-4:e], []byte{0xff, 0xff, 0xff, 0xff})
+				case 2:
+					copy(pl[e-4:e], []byte{^c0, ^c1, ^c2, ^c3})
+				case 3:
+					copy(pl[e-4:e], []byte{c3, c2, c1, c0})
+				default:
+					copy(pl[e-4:e], gen.Bytes(r, 4))
+				}
 			}
 		case "length-and-move":
 			// shorten the section by k bytes, removing them from the body
